@@ -25,19 +25,20 @@ props_override = opt("--props", True)
 both = bool(opt("--both", False))
 inplace = bool(opt("--inplace", False))
 names = argv or sorted(p.name for p in (ROOT / "seeded").iterdir() if (p / "patch.diff").exists())
+BASE_REPO = os.environ.get("SEED_BASE_REPO", "/repo")      # family builders: their own y0 worktree
 
 def sh(*a, **k):
     return subprocess.run(list(a), capture_output=True, text=True, **k)
 
 if inplace:
-    repo = "/repo"
+    repo = BASE_REPO
     if sh("git", "-C", repo, "status", "--porcelain", "--untracked-files=no").stdout.strip():
         sys.exit("refusing: /repo has uncommitted changes")
     tmp = None
 else:
     tmp = tempfile.mkdtemp(prefix="seedrun-")
     repo = os.path.join(tmp, "repo")
-    r = sh("git", "-C", "/repo", "worktree", "add", "--detach", repo, "HEAD")
+    r = sh("git", "-C", BASE_REPO, "worktree", "add", "--detach", repo, "HEAD")
     if r.returncode != 0:
         sys.exit("cannot create scratch worktree: " + r.stderr)
 env = dict(os.environ)
@@ -83,6 +84,6 @@ try:
         summary.append((name, " ".join(f"{m}={'CAUGHT' if c else 'MISSED'}" for m, c in caught.items())))
 finally:
     if tmp:
-        sh("git", "-C", "/repo", "worktree", "remove", "--force", repo)
+        sh("git", "-C", BASE_REPO, "worktree", "remove", "--force", repo)
         shutil.rmtree(tmp, ignore_errors=True)
 print("\n".join(f"{n}: {s}" for n, s in summary))
